@@ -194,7 +194,7 @@ func TestKeyWrapSweep(t *testing.T) {
 
 func TestKeyWrapRapid(t *testing.T) {
 	sec := vk.Sec("KeyWrapRapid")
-	vk.Check(t, 10000, 200000, func(rt *rapid.T) {
+	vk.Check(t, 10000, 500000, func(rt *rapid.T) {
 		c := kwCase{KekLen: rapid.SampledFrom([]int{16, 24, 32}).Draw(rt, "kek"), Seed: rapid.Uint64().Draw(rt, "seed")}
 		switch rapid.IntRange(0, 9).Draw(rt, "class") {
 		case 0:
